@@ -1394,6 +1394,28 @@ class World:
                     new = data[:k + len(name)] + bytes(rng.randrange(256) for _ in range(3)) + data[k + len(name) + 3:]
                 else:
                     new = data[:k - 2] + bytes(rng.randrange(256) for _ in range(2)) + data[k:]
+        elif how == 'shape':
+            # a file that still unpickles to a _NodeCacheItem, with one piece of it wrong or missing (written
+            # by another item layout, or a partial overwrite that happens to stay loadable); tree and
+            # change time are kept, so that every later use of the item meets the damage
+            try:
+                item = pickle.loads(data)
+                variant = op.get('a', 0) % 6
+                if variant == 0:
+                    item.lines = None
+                elif variant == 1:
+                    del item.lines
+                elif variant == 2:
+                    item.lines = ''.join(item.lines)
+                elif variant == 3:
+                    item.last_used = None
+                elif variant == 4:
+                    item.node = None
+                else:
+                    item.lines = [ln.encode('utf-8', 'replace') for ln in item.lines]
+                new = pickle.dumps(item, pickle.HIGHEST_PROTOCOL)
+            except Exception:
+                new = data
         elif how == 'append':
             new = data + bytes(rng.randrange(256) for _ in range(1 + op.get('a', 0) % 40))
         else:
